@@ -155,6 +155,18 @@ func AddStandardFilters(fd FilterDictionary) { //nolint: gocyclo
 		case float64:
 			return divFloat(a, q)
 		default:
+			// named integer and float types divide as the kinds they are
+			switch rv := reflect.ValueOf(b); rv.Kind() {
+			case reflect.Int, reflect.Int8, reflect.Int16, reflect.Int32, reflect.Int64:
+				return divInt(int64(a), rv.Int())
+			case reflect.Uint, reflect.Uint8, reflect.Uint16, reflect.Uint32, reflect.Uint64, reflect.Uintptr:
+				if rv.Uint() > math.MaxInt64 {
+					return int64(0), nil
+				}
+				return divInt(int64(a), int64(rv.Uint()))
+			case reflect.Float32, reflect.Float64:
+				return divFloat(a, rv.Float())
+			}
 			return nil, fmt.Errorf("invalid divisor: '%v'", b)
 		}
 	})
